@@ -874,6 +874,16 @@ fn exec_dec(prop: &str, spec: &DecSpec, source: &mut dyn OpSource) -> RunOut {
         }
     }
 
+    // a chunked history that never ends (environment done, event cap reached)
+    // while the single call on the same stream does: there is no chunked result
+    // to be equal to the single-call one
+    if complete && !run.finished && run.env_done && matches!(prop, "C02" | "C10") {
+        let r = reference_dec(spec.enc, spec.bom, spec.repl, spec.form16, &spec.stream);
+        if r.ok {
+            let p: &'static str = if prop == "C10" { "C10" } else { "C02" };
+            viols.push(viol(p, "chunked-history-does-not-finish", format!("{} events, {} calls, {} of {} bytes consumed; the single call finishes", run.events, run.calls.len(), run.consumed, n)));
+        }
+    }
     if complete && run.finished && matches!(prop, "C02" | "C10") {
         let text = run.text(spec.form16);
         let r = reference_dec(spec.enc, spec.bom, spec.repl, spec.form16, &spec.stream);
@@ -1126,6 +1136,12 @@ fn exec_enc(prop: &str, spec: &EncSpec, source: &mut dyn OpSource) -> RunOut {
         }
     }
 
+    if complete && !run.finished && run.env_done && prop == "C04" {
+        let r = reference_enc(spec.enc, spec.repl, spec.form16, &spec.text);
+        if r.ok {
+            viols.push(viol("C04", "chunked-history-does-not-finish", format!("{} events, {} calls for {} characters; the single call finishes", run.events, run.calls.len(), nchars)));
+        }
+    }
     if complete && run.finished && matches!(prop, "C04" | "C09" | "C12") {
         let r = reference_enc(spec.enc, spec.repl, spec.form16, &spec.text);
         // the without-replacement twin under the null schedule: which
